@@ -29,7 +29,10 @@
 (* each observer that the real object's state did not change, fires all       *)
 (* observer edges of a node on the same live object and goes on.  With        *)
 (* Interleave = TRUE observers are ordinary steps (every sequence of          *)
-(* <= MaxSteps operations of both sorts).                                     *)
+(* <= MaxSteps operations of both sorts).  ObserveAt restricts the depths at  *)
+(* which observers are offered: every (contents, last mutator) pair of a      *)
+(* shorter history other than the constructor's recurs at depth MaxSteps, so  *)
+(* {0, 1, MaxSteps} loses no (state, last mutator, observer) combination.     *)
 EXTENDS Integers, Sequences, FiniteSets, TLC
 
 CONSTANTS Kind,        \* "set" or "map"
@@ -38,11 +41,13 @@ CONSTANTS Kind,        \* "set" or "map"
           Vals,        \* map values
           MaxNew,      \* map: longest pair list given to the constructor
           FullMapOps,  \* map: TRUE = compare with every well-formed map, FALSE = with variants of the current one
-          MaxSteps,
-          Interleave
+          MaxSteps,    \* bound on the number of mutating operations (all operations when Interleave)
+          Interleave,  \* TRUE: observers are ordinary steps; FALSE: an observer ends the behaviour
+          ObserveAt    \* Interleave = FALSE: observers are offered in states with steps \in ObserveAt
 
 ASSUME Kind \in {"set", "map"} /\ N \in 1..5 /\ Operands \subseteq SUBSET (1..N)
 ASSUME Cardinality(Vals) >= 2 /\ MaxSteps \in Nat /\ Interleave \in BOOLEAN /\ FullMapOps \in BOOLEAN
+ASSUME ObserveAt \subseteq 0..MaxSteps
 
 Elems   == 1..N
 Keys    == 1..N
@@ -64,10 +69,8 @@ A(name, arg, res, exc) == AP(name, arg, res, exc, 0)
 Min(T) == CHOOSE x \in T : \A y \in T : x <= y
 Max(T) == CHOOSE x \in T : \A y \in T : y <= x
 
-RECURSIVE AscRec(_)
-AscRec(T) == IF T = {} THEN <<>> ELSE <<Min(T)>> \o AscRec(T \ {Min(T)})
-AscTable == [T \in SUBSET (1..N) |-> AscRec(T)]       \* constant: evaluated once by TLC
-Asc(T) == AscTable[T]                                  \* iteration order of the set T
+\* iteration order of the set T: the element with i-1 smaller ones comes i-th
+Asc(T) == [i \in 1..Cardinality(T) |-> CHOOSE x \in T : Cardinality({y \in T : y < x}) = i - 1]
 Reverse(s) == [i \in 1..Len(s) |-> s[Len(s) + 1 - i]]
 Range(s) == {s[i] : i \in 1..Len(s)}
 
@@ -110,6 +113,7 @@ Variants(m) ==
     \cup (IF Len(m) >= 2 THEN {Swap12(m)} ELSE {})
     \cup {Append(m, <<k, CHOOSE v \in Vals : TRUE>>) : k \in Keys \ KeysOf(m)}
 MapOperands(m) == IF FullMapOps THEN AllMaps ELSE Variants(m)
+NewArgs == IF Kind = "map" THEN PairSeqs(MaxNew) ELSE {}     \* pair lists given to the constructor (constant)
 
 ----------------------------------------------------------------------------
 Init == /\ S = {} /\ M = <<>> /\ act = A("init", None, None, "") /\ steps = 0 /\ done = FALSE
@@ -119,78 +123,82 @@ Mut(S2, M2, a) ==
     /\ S' = S2 /\ M' = M2 /\ act' = a /\ steps' = steps + 1 /\ done' = FALSE
 
 Obs(a) ==
-    /\ ~done /\ (Interleave => steps < MaxSteps)
+    /\ ~done /\ (IF Interleave THEN steps < MaxSteps ELSE steps \in ObserveAt)
     /\ UNCHANGED <<S, M>> /\ act' = a
     /\ steps' = IF Interleave THEN steps + 1 ELSE steps
     /\ done' = ~Interleave
 
 IsSet == Kind = "set"
 IsMap == Kind = "map"
+\* guards of the actions (first conjunct: one TLC run per data type; nothing follows a terminal observer)
+SetOp == IsSet /\ ~done
+MapOp == IsMap /\ ~done
 
 (* ---- SortedSet mutators ---- *)
-SNew(T)    == IsSet /\ steps = 0 /\ Mut(T, M, A("new", T, None, ""))              \* SortedSet(iterable)
-SAdd(e)    == IsSet /\ Mut(S \cup {e}, M, A("add", e, None, ""))
-SRemove(e) == IsSet /\ IF e \in S THEN Mut(S \ {e}, M, A("remove", e, None, ""))
+SNew(T)    == SetOp /\ steps = 0 /\ Mut(T, M, A("new", T, None, ""))              \* SortedSet(iterable)
+SAdd(e)    == SetOp /\ Mut(S \cup {e}, M, A("add", e, None, ""))
+SRemove(e) == SetOp /\ IF e \in S THEN Mut(S \ {e}, M, A("remove", e, None, ""))
                                   ELSE Mut(S, M, A("remove", e, None, "KeyError"))
-SPop       == IsSet /\ IF S = {} THEN Mut(S, M, A("pop", None, None, "KeyError"))
+SPop       == SetOp /\ IF S = {} THEN Mut(S, M, A("pop", None, None, "KeyError"))
                                  ELSE Mut(S \ {Max(S)}, M, A("pop", None, Max(S), ""))   \* list.pop(): the maximum
-SClear     == IsSet /\ Mut({}, M, A("clear", None, None, ""))
-SUpdate(T) == IsSet /\ Mut(Union(S, T), M, A("update", T, None, ""))
-SIOr(T)    == IsSet /\ Mut(Union(S, T), M, A("ior", T, "self", ""))
-SIAnd(T)   == IsSet /\ Mut(Inter(S, T), M, A("iand", T, "self", ""))
-SISub(T)   == IsSet /\ Mut(Diff(S, T), M, A("isub", T, "self", ""))
-SIXor(T)   == IsSet /\ Mut(SymDiff(S, T), M, A("ixor", T, "self", ""))
-SDelItem(i) == IsSet /\ LET p == Pos(i, Cardinality(S)) IN
+SClear     == SetOp /\ Mut({}, M, A("clear", None, None, ""))
+SUpdate(T) == SetOp /\ Mut(Union(S, T), M, A("update", T, None, ""))
+SIOr(T)    == SetOp /\ Mut(Union(S, T), M, A("ior", T, "self", ""))
+SIAnd(T)   == SetOp /\ Mut(Inter(S, T), M, A("iand", T, "self", ""))
+SISub(T)   == SetOp /\ Mut(Diff(S, T), M, A("isub", T, "self", ""))
+SIXor(T)   == SetOp /\ Mut(SymDiff(S, T), M, A("ixor", T, "self", ""))
+SDelItem(i) == SetOp /\ LET p == Pos(i, Cardinality(S)) IN
                   IF p = 0 THEN Mut(S, M, A("delitem", i, None, "IndexError"))
                            ELSE Mut(S \ {Asc(S)[p]}, M, A("delitem", i, None, ""))
-SDelSlice(sl) == IsSet /\ LET a == Asc(S) IN
+SDelSlice(sl) == SetOp /\ LET a == Asc(S) IN
                   Mut(S \ {a[p] : p \in SlicePositions(Len(a), sl[1], sl[2])}, M, A("delslice", sl, None, ""))
 
 (* ---- SortedSet observers ---- *)
-SContains(e) == IsSet /\ Obs(A("contains", e, e \in S, ""))
-SLen         == IsSet /\ Obs(A("len", None, Cardinality(S), ""))
-SIter        == IsSet /\ Obs(A("iter", None, Asc(S), ""))
-SReversed    == IsSet /\ Obs(A("reversed", None, Reverse(Asc(S)), ""))
-SCopy        == IsSet /\ Obs(A("copy", None, S, ""))
-SGetItem(i)  == IsSet /\ LET p == Pos(i, Cardinality(S)) IN
+SContains(e) == SetOp /\ Obs(A("contains", e, e \in S, ""))
+SLen         == SetOp /\ Obs(A("len", None, Cardinality(S), ""))
+SIter        == SetOp /\ Obs(A("iter", None, Asc(S), ""))
+SReversed    == SetOp /\ Obs(A("reversed", None, Reverse(Asc(S)), ""))
+SCopy        == SetOp /\ Obs(A("copy", None, S, ""))
+SGetItem(i)  == SetOp /\ LET p == Pos(i, Cardinality(S)) IN
                   IF p = 0 THEN Obs(A("getitem", i, None, "IndexError")) ELSE Obs(A("getitem", i, Asc(S)[p], ""))
-SGetSlice(sl) == IsSet /\ Obs(A("getslice", sl, SliceOf(Asc(S), sl[1], sl[2]), ""))
-SUnion(T)    == IsSet /\ Obs(A("union", T, Union(S, T), ""))
-SInter(T)    == IsSet /\ Obs(A("intersection", T, Inter(S, T), ""))
-SDiff(T)     == IsSet /\ Obs(A("difference", T, Diff(S, T), ""))
-SRDiff(T)    == IsSet /\ Obs(A("rdifference", T, Diff(T, S), ""))                \* other - self
-SSymDiff(T)  == IsSet /\ Obs(A("symmetric_difference", T, SymDiff(S, T), ""))
-SIsSubset(T) == IsSet /\ Obs(A("issubset", T, Subset(S, T), ""))
-SIsSuperset(T) == IsSet /\ Obs(A("issuperset", T, Subset(T, S), ""))
-SIsDisjoint(T) == IsSet /\ Obs(A("isdisjoint", T, Disjoint(S, T), ""))
-SLe(T)       == IsSet /\ Obs(A("le", T, Subset(S, T), ""))
-SLt(T)       == IsSet /\ Obs(A("lt", T, Proper(S, T), ""))
-SGe(T)       == IsSet /\ Obs(A("ge", T, Subset(T, S), ""))
-SGt(T)       == IsSet /\ Obs(A("gt", T, Proper(T, S), ""))
-SEq(T)       == IsSet /\ Obs(A("eq", T, S = T, ""))
-SNe(T)       == IsSet /\ Obs(A("ne", T, S # T, ""))
+SGetSlice(sl) == SetOp /\ Obs(A("getslice", sl, SliceOf(Asc(S), sl[1], sl[2]), ""))
+SUnion(T)    == SetOp /\ Obs(A("union", T, Union(S, T), ""))
+SInter(T)    == SetOp /\ Obs(A("intersection", T, Inter(S, T), ""))
+SDiff(T)     == SetOp /\ Obs(A("difference", T, Diff(S, T), ""))
+SRDiff(T)    == SetOp /\ Obs(A("rdifference", T, Diff(T, S), ""))                \* other - self
+SSymDiff(T)  == SetOp /\ Obs(A("symmetric_difference", T, SymDiff(S, T), ""))
+SIsSubset(T) == SetOp /\ Obs(A("issubset", T, Subset(S, T), ""))
+SIsSuperset(T) == SetOp /\ Obs(A("issuperset", T, Subset(T, S), ""))
+SIsDisjoint(T) == SetOp /\ Obs(A("isdisjoint", T, Disjoint(S, T), ""))
+SLe(T)       == SetOp /\ Obs(A("le", T, Subset(S, T), ""))
+SLt(T)       == SetOp /\ Obs(A("lt", T, Proper(S, T), ""))
+SGe(T)       == SetOp /\ Obs(A("ge", T, Subset(T, S), ""))
+SGt(T)       == SetOp /\ Obs(A("gt", T, Proper(T, S), ""))
+SEq(T)       == SetOp /\ Obs(A("eq", T, S = T, ""))
+SNe(T)       == SetOp /\ Obs(A("ne", T, S # T, ""))
 
 (* ---- OrderedMap mutators ---- *)
-MNew(ps)      == IsMap /\ steps = 0 /\ Mut(S, Build(<<>>, ps), A("new", ps, None, ""))     \* OrderedMap(pairs)
-MSetItem(k, v) == IsMap /\ Mut(S, Insert(M, k, v), AP("setitem", <<k, v>>, None, "", Index(Insert(M, k, v), k)))
-MDelItem(k)   == IsMap /\ IF Index(M, k) = 0 THEN Mut(S, M, A("delitem", k, None, "KeyError"))
+MNew(ps)      == MapOp /\ steps = 0 /\ Mut(S, Build(<<>>, ps), A("new", ps, None, ""))     \* OrderedMap(pairs)
+MSetItem(k, v) == MapOp /\ Mut(S, Insert(M, k, v), AP("setitem", <<k, v>>, None, "", Index(Insert(M, k, v), k)))
+MDelItem(k)   == MapOp /\ IF Index(M, k) = 0 THEN Mut(S, M, A("delitem", k, None, "KeyError"))
                                              ELSE Mut(S, RemoveAt(M, Index(M, k)), AP("delitem", k, None, "", Index(M, k)))
-MPopItem      == IsMap /\ IF M = <<>> THEN Mut(S, M, A("popitem", None, None, "KeyError"))
+MPopItem      == MapOp /\ IF M = <<>> THEN Mut(S, M, A("popitem", None, None, "KeyError"))
                                       ELSE Mut(S, Front(M), A("popitem", None, M[Len(M)], ""))
 
 (* ---- OrderedMap observers ---- *)
-MGetItem(k)  == IsMap /\ IF Index(M, k) = 0 THEN Obs(A("getitem", k, None, "KeyError"))
+MGetItem(k)  == MapOp /\ IF Index(M, k) = 0 THEN Obs(A("getitem", k, None, "KeyError"))
                                             ELSE Obs(A("getitem", k, M[Index(M, k)][2], ""))
-MGet(k)      == IsMap /\ Obs(A("get", k, IF Index(M, k) = 0 THEN None ELSE M[Index(M, k)][2], ""))
-MContains(k) == IsMap /\ Obs(A("contains", k, Index(M, k) # 0, ""))
-MLen         == IsMap /\ Obs(A("len", None, Len(M), ""))
-MKeys        == IsMap /\ Obs(A("keys", None, [i \in 1..Len(M) |-> M[i][1]], ""))
-MValues      == IsMap /\ Obs(A("values", None, [i \in 1..Len(M) |-> M[i][2]], ""))
-MItems       == IsMap /\ Obs(A("items", None, M, ""))
-MEqMap(o)    == IsMap /\ Obs(A("eq_map", o, M = o, ""))                 \* another OrderedMap: order matters
-MNeMap(o)    == IsMap /\ Obs(A("ne_map", o, M # o, ""))
-MEqDict(o)   == IsMap /\ Obs(A("eq_dict", o, AsFun(M) = AsFun(o), ""))  \* a dict: order does not matter
-MNeDict(o)   == IsMap /\ Obs(A("ne_dict", o, AsFun(M) # AsFun(o), ""))
+MGet(k)      == MapOp /\ Obs(A("get", k, IF Index(M, k) = 0 THEN None ELSE M[Index(M, k)][2], ""))
+MContains(k) == MapOp /\ Obs(A("contains", k, Index(M, k) # 0, ""))
+MLen         == MapOp /\ Obs(A("len", None, Len(M), ""))
+MKeys        == MapOp /\ Obs(A("keys", None, [i \in 1..Len(M) |-> M[i][1]], ""))
+MValues      == MapOp /\ Obs(A("values", None, [i \in 1..Len(M) |-> M[i][2]], ""))
+MItems       == MapOp /\ Obs(A("items", None, M, ""))
+\* the operand set depends on the state, so the quantifier sits inside the action (TLC then reports its coverage)
+MEqMap       == MapOp /\ \E o \in MapOperands(M) : Obs(A("eq_map", o, M = o, ""))     \* another OrderedMap: order matters
+MNeMap       == MapOp /\ \E o \in MapOperands(M) : Obs(A("ne_map", o, M # o, ""))
+MEqDict      == MapOp /\ \E o \in MapOperands(M) : Obs(A("eq_dict", o, AsFun(M) = AsFun(o), ""))  \* a dict: order is irrelevant
+MNeDict      == MapOp /\ \E o \in MapOperands(M) : Obs(A("ne_dict", o, AsFun(M) # AsFun(o), ""))
 
 SetNext ==
     \/ \E T \in Operands : SNew(T) \/ SUpdate(T) \/ SIOr(T) \/ SIAnd(T) \/ SISub(T) \/ SIXor(T)
@@ -203,13 +211,13 @@ SetNext ==
                            \/ SLe(T) \/ SLt(T) \/ SGe(T) \/ SGt(T) \/ SEq(T) \/ SNe(T)
 
 MapNext ==
-    \/ \E ps \in PairSeqs(MaxNew) : MNew(ps)
+    \/ \E ps \in NewArgs : MNew(ps)
     \/ \E k \in Keys : (\E v \in Vals : MSetItem(k, v)) \/ MDelItem(k) \/ MGetItem(k) \/ MGet(k) \/ MContains(k)
     \/ MPopItem \/ MLen \/ MKeys \/ MValues \/ MItems
-    \/ \E o \in MapOperands(M) : MEqMap(o) \/ MNeMap(o) \/ MEqDict(o) \/ MNeDict(o)
+    \/ MEqMap \/ MNeMap \/ MEqDict \/ MNeDict
 
 \* one TLC run per data type (Kind is a constant, so only one disjunct is ever enabled)
-Next == ~done /\ ((IsSet /\ SetNext) \/ (IsMap /\ MapNext))
+Next == SetNext \/ MapNext
 
 Spec == Init /\ [][Next]_vars
 
@@ -227,22 +235,25 @@ IterationSorted ==
     /\ \A i \in 1..(Len(a) - 1) : a[i] < a[i + 1]
     /\ Reverse(Reverse(a)) = a
 
-\* the definitions used by the actions agree with independent formulations
-SetAlgebra ==
-    \A T \in Operands :
-        /\ S \subseteq Union(S, T) /\ T \subseteq Union(S, T) /\ Union(S, T) \subseteq Elems
-        /\ \A x \in Elems : (x \in Union(S, T)) <=> (x \in S \/ x \in T)
-        /\ \A x \in Elems : (x \in Inter(S, T)) <=> (x \in S /\ x \in T)
-        /\ \A x \in Elems : (x \in Diff(S, T)) <=> (x \in S /\ x \notin T)
-        /\ \A x \in Elems : (x \in SymDiff(S, T)) <=> ((x \in S) # (x \in T))
-        /\ SymDiff(S, T) = Union(S, T) \ Inter(S, T)
-        /\ SymDiff(S, T) = SymDiff(T, S)
-        /\ Subset(S, T) <=> (Inter(S, T) = S)
-        /\ Subset(S, T) <=> (Union(S, T) = T)
-        /\ Proper(S, T) <=> (Subset(S, T) /\ Cardinality(S) < Cardinality(T))
-        /\ (Subset(S, T) /\ Subset(T, S)) <=> (S = T)
-        /\ Disjoint(S, T) <=> (Diff(S, T) = S)
-        /\ Cardinality(Union(S, T)) + Cardinality(Inter(S, T)) = Cardinality(S) + Cardinality(T)
+\* the definitions used by the actions agree with independent formulations; checked for the pair
+\* (current contents, operand of the last operation), which ranges over all pairs during a run
+TakesSet == {"new", "update", "ior", "iand", "isub", "ixor", "union", "intersection", "difference", "rdifference",
+             "symmetric_difference", "issubset", "issuperset", "isdisjoint", "le", "lt", "ge", "gt", "eq", "ne"}
+Algebra(X, T) ==
+    /\ X \subseteq Union(X, T) /\ T \subseteq Union(X, T) /\ Union(X, T) \subseteq Elems
+    /\ \A x \in Elems : (x \in Union(X, T)) <=> (x \in X \/ x \in T)
+    /\ \A x \in Elems : (x \in Inter(X, T)) <=> (x \in X /\ x \in T)
+    /\ \A x \in Elems : (x \in Diff(X, T)) <=> (x \in X /\ x \notin T)
+    /\ \A x \in Elems : (x \in SymDiff(X, T)) <=> ((x \in X) # (x \in T))
+    /\ SymDiff(X, T) = Union(X, T) \ Inter(X, T)
+    /\ SymDiff(X, T) = SymDiff(T, X)
+    /\ Subset(X, T) <=> (Inter(X, T) = X)
+    /\ Subset(X, T) <=> (Union(X, T) = T)
+    /\ Proper(X, T) <=> (Subset(X, T) /\ Cardinality(X) < Cardinality(T))
+    /\ (Subset(X, T) /\ Subset(T, X)) <=> (X = T)
+    /\ Disjoint(X, T) <=> (Diff(X, T) = X)
+    /\ Cardinality(Union(X, T)) + Cardinality(Inter(X, T)) = Cardinality(X) + Cardinality(T)
+SetAlgebra == (IsSet /\ act.name \in TakesSet) => Algebra(S, act.arg)
 
 \* what the last operation reported is consistent with the state it left behind
 SetResults ==
